@@ -39,6 +39,32 @@ private def colRectsAsPts (rs : List (Rect × Nat)) : List Pt :=
 private def colPixAsPts (ps : List (Pt × Nat)) : List Pt :=
   ps.flatMap (fun (p, c) => [p, (⟨(c : Int), 0⟩ : Pt)])
 
+private def kindChar : Joins.JoinKind → Char
+  | .miter => 'M'
+  | .bevel .left => 'b'
+  | .bevel .right => 'B'
+  | .degenerate .left => 'd'
+  | .degenerate .right => 'D'
+  | .colinear => 'C'
+  | .start => 'S'
+  | .stop => 'E'
+
+/-- Kinds of the interior joins of a polyline and its number of skeleton segments. -/
+private def polyKinds (vs : List Pt) (w : Nat) : Option (String × Nat) := do
+  let it ← Joins.ThickSegmentIter.new vs w
+  let segs ← it.toList
+  let ks := segs.dropLast.map (fun s => kindChar s.endJoin.kind)
+  pure (if ks.isEmpty then "-" else String.ofList ks, (segs.filter (·.isSkeleton)).length)
+
+/-- Kinds of the three joins of the clockwise-sorted triangle and `is_collapsed`. -/
+private def triKinds (t : Joins.Tri) (w : Nat) (off : Thick.StrokeOffset) : Option (String × Bool) := do
+  let tc := t.sortedClockwise
+  let j0 ← Joins.LineJoin.fromPoints (tc.vertex 0) (tc.vertex 1) (tc.vertex 2) w off
+  let j1 ← Joins.LineJoin.fromPoints (tc.vertex 1) (tc.vertex 2) (tc.vertex 3) w off
+  let j2 ← Joins.LineJoin.fromPoints (tc.vertex 2) (tc.vertex 3) (tc.vertex 4) w off
+  let c ← tc.isCollapsed w off
+  pure (String.ofList [kindChar j0.kind, kindChar j1.kind, kindChar j2.kind], c)
+
 private def stuckOr (o : Option String) : String :=
   match o with
   | some s => s
@@ -70,7 +96,8 @@ def handleThick (stream : String) (t : Toks) : Option String :=
       let bb ← Joins.styledBoundingBox pl w
       let dr ← Joins.drawStyled pl w
       let px ← Joins.pixels pl w
-      pure s!"bb={fmtRect bb} draw={fmtPolyDraw dr} px={fmtPtsDigest px}"))
+      let (ks, sk) ← polyKinds vs w
+      pure s!"bb={fmtRect bb} k={ks} s={sk} draw={fmtPolyDraw dr} px={fmtPtsDigest px}"))
   | "thick.triangle" =>
     let (d, t) := t.pt
     let (a, t) := t.pt
@@ -91,7 +118,8 @@ def handleThick (stream : String) (t : Toks) : Option String :=
       let dr ← Joins.triDraw tri style
       let px ← Joins.triPixels tri style
       let d := if dr.isEmpty then "-" else "fs:" ++ fmtPtsDigest (colRectsAsPts dr)
-      pure s!"bb={fmtRect bb} draw={d} px={fmtPtsDigest (colPixAsPts px)}"))
+      let (ks, col) ← triKinds tri w align.toOffset
+      pure s!"bb={fmtRect bb} k={ks} c={if col then 1 else 0} draw={d} px={fmtPtsDigest (colPixAsPts px)}"))
   | _ => none
 
 end EG.Driver
